@@ -106,6 +106,15 @@ def handle (args : List String) : Option String :=
   | ["sterr", err, content, texts, payload] => do
     let e ← hexDecodeStr err; let c ← hexDecodeStr content; let tx ← parseTexts texts; let p ← decToks payload
     pure (showToks (streamErrTokens ⟨e, tx, c⟩ p))
+  | ["multi", _fn, k, order, _seed] => do
+    -- k readers made before any is read, drained in the given order: own tokens each
+    let n ← k.toNat?
+    let ord ← mapM? (fun (x : String) => x.toNat?) (splitList order)
+    let vs : List (List Tok) := (List.range n).map fun i => [Tok.chars (toString i)]
+    let got := Stanza.Readers.drainAll false (Stanza.Readers.makeAll false Stanza.Readers.init vs) ord
+    let obs := (ord.zip got).map fun (p : Nat × List Tok) =>
+      if p.2 == vs.getD p.1 [] then "own" else if p.2.isEmpty then "empty" else "foreign"
+    pure (joinList obs)
   | ["stdec", toks] => do
     let ts ← decToks toks
     match decodeStreamErr ts with
